@@ -1,1 +1,4 @@
 import IgVerif.Model.Bytes
+import IgVerif.Lemmas.CType
+import IgVerif.Model.Scope
+import IgVerif.Props.C06
